@@ -5,6 +5,7 @@ for Cpus_allowed_list shapes, kernel refusals and the exact syscall arguments.""
 import ctypes
 import errno
 import itertools
+import json
 import os
 import resource
 import signal
@@ -213,6 +214,9 @@ def sim(arg):
     p = w.spawn(4700, ppid=w.mypid, comm=b"subj", start=900)
     q = w.spawn(4701, ppid=w.mypid, comm=b"sib", start=901)
     p.cpus_allowed_list = shape
+    if ncpu < max(eligible) + 1:
+        # a CPU in the middle was hot-unplugged: ncpu rows in /proc/stat, numbered like the eligible CPUs
+        w.online_cpu_ids = list(eligible)
     w.eligible_cpus = lambda proc: list(eligible) if proc is p else list(range(ncpu))
     use_world(w)
     bad = []
@@ -227,7 +231,7 @@ def sim(arg):
     out = outcome(pr.cpu_affinity, list(req))
     eff = w.effects[n0:]
     want = sorted(set(req) & set(eligible)) if req else sorted(eligible)
-    valid = bool(want) and all(0 <= c < ncpu for c in req)
+    valid = bool(want) and all(0 <= c < max(ncpu, max(eligible) + 1) for c in req)
     if valid:
         if out[0] != "ok" or sorted(p.affinity or []) != want:
             what = "empty-list" if not req else "x"
@@ -249,6 +253,96 @@ def sim(arg):
     if q.affinity is not None or q.nice != 0:
         bad.append(("sim:sibling-changed", "x"))
     return bad
+
+
+def sim_get(arg):
+    """the get forms against every answer the (simulated) kernel can give, including ones psutil itself can never set
+    (class NONE with a level, as kernels before 5.20 report for tasks that never set an I/O priority)"""
+    import psutil
+    kind, val = arg
+    w = World(ncpus=8)
+    w.spawn(1, ppid=0, comm=b"init", start=1)
+    w.spawn(w.mypid, ppid=1, comm=b"caller", start=50)
+    p = w.spawn(4700, ppid=w.mypid, comm=b"subj", start=900)
+    use_world(w)
+    pr = psutil.Process(4700)
+    bad = []
+    if kind == "ioprio":
+        p.ioprio = tuple(val)
+        got = outcome(pr.ionice)
+        if got[0] != "ok" or (int(got[1].ioclass), got[1].value) != tuple(val):
+            bad.append(("sim:get:ionice", "kernel reports (class, data) = %r, ionice() -> %r" % (tuple(val), freeze(got))))
+    elif kind == "nice":
+        p.nice = val
+        got = outcome(pr.nice)
+        if got != ("ok", val):
+            bad.append(("sim:get:nice", "kernel reports %r, nice() -> %r" % (val, got)))
+    elif kind == "affinity":
+        p.affinity = set(val)
+        got = outcome(pr.cpu_affinity)
+        if got != ("ok", sorted(val)):
+            bad.append(("sim:get:cpu_affinity", "kernel reports %r, cpu_affinity() -> %r" % (sorted(val), got)))
+    return bad
+
+
+def sim_get_cases(thorough):
+    cases = [("ioprio", [c, d]) for c in range(4) for d in range(8)]
+    cases += [("nice", n) for n in range(-20, 20)]
+    for r in (1, 2, 8) + ((3, 4) if thorough else ()):
+        cases += [("affinity", list(c)) for c in itertools.combinations(range(8), r)]
+    return cases
+
+
+def bigkernel_cases(thorough):
+    cases = []
+    for nbits in (64, 128, 256, 1024) + ((512, 4096, 65536) if thorough else ()):
+        for mask in ([0], [nbits - 1], sorted({0, 1, 70 % nbits, nbits - 1}), list(range(nbits)) if nbits <= 256 else list(range(0, nbits, 7))):
+            cases.append([nbits, mask])
+    return cases
+
+
+def bigkernel_main():
+    """child side (LD_PRELOAD=ifshim.so): the compiled get path against kernels with more possible CPUs than this machine"""
+    import psutil
+    cases = json.loads(sys.stdin.read())
+    path = os.environ["VF_AFFINITY_FILE"]
+    me = psutil.Process()
+    out = []
+    for nbits, mask in cases:
+        with open(path, "w") as f:
+            f.write("%d %s\n" % (nbits, " ".join(map(str, mask))))
+        bad = []
+        got = outcome(me.cpu_affinity)
+        if got != ("ok", sorted(mask)):
+            bad.append(("bigkernel:cpu_affinity-get", "kernel with %d possible CPUs reports %s, cpu_affinity() -> %s"
+                        % (nbits, _short(sorted(mask)), _short(freeze(got)))))
+        out.append(bad)
+    os.unlink(path)
+    print("@@RESULT@@" + json.dumps(out) + "@@RESULT@@")
+
+
+def _short(v):
+    s = repr(v)
+    return s if len(s) < 160 else s[:150] + "...]"
+
+
+def bigkernel(cases):
+    import tempfile
+    from vf.checks.c17 import SHIM, _ensure_shim
+    _ensure_shim()
+    fd, path = tempfile.mkstemp(prefix="vf-aff-", dir="/var/tmp")
+    os.close(fd)
+    env = dict(os.environ, VF_AFFINITY_FILE=path)
+    env["LD_PRELOAD"] = (env.get("LD_PRELOAD", "") + " " + SHIM).strip()
+    try:
+        p = subprocess.run([sys.executable, "-c", "import vf.checks.c18 as m; m.bigkernel_main()"], input=json.dumps(cases),
+                           capture_output=True, text=True, env=env)
+        if "@@RESULT@@" not in p.stdout:
+            raise RuntimeError("bigkernel child failed: rc=%s %s" % (p.returncode, p.stderr[-800:]))
+        return [[tuple(x) for x in b] for b in json.loads(p.stdout.split("@@RESULT@@")[1])]
+    finally:
+        if os.path.exists(path):
+            os.unlink(path)
 
 
 def sim_refusal(arg):
@@ -322,7 +416,9 @@ def sim_oneshot(arg):
 def sim_cases(thorough):
     cases = []
     shapes = [("0-3", 4, [0, 1, 2, 3]), ("0,2", 4, [0, 2]), ("0-1,4-5", 8, [0, 1, 4, 5]), ("3", 4, [3]), ("0-1,3", 4, [0, 1, 3]),
-              ("1-2", 4, [1, 2]), ("0-7", 8, list(range(8))), ("0,2-3,6", 8, [0, 2, 3, 6])]
+              ("1-2", 4, [1, 2]), ("0-7", 8, list(range(8))), ("0,2-3,6", 8, [0, 2, 3, 6]),
+              # CPU 3 (resp. 1) hot-unplugged: as many /proc/stat rows as online CPUs, the highest number beyond the row count
+              ("0-2,4", 4, [0, 1, 2, 4]), ("0,2-3", 3, [0, 2, 3])]
     for shape, ncpu, elig in shapes:
         reqs = [()] + [(c,) for c in range(ncpu)] + [tuple(elig), tuple(range(ncpu)), (ncpu,), (elig[0], elig[0])]
         if len(elig) > 1:
@@ -354,11 +450,21 @@ def run(ctx):
     for c, bad in zip(rc, ctx.pmap(sim_refusal, rc)):
         for cause, msg in bad:
             viols.append({"cause": cause, "msg": msg, "case": {"refusal": list(c)}})
+    gc_ = sim_get_cases(ctx.thorough)
+    for c, bad in zip(gc_, ctx.pmap(sim_get, gc_)):
+        for cause, msg in bad:
+            viols.append({"cause": cause, "msg": msg, "case": {"get": list(c)}})
+    bk = bigkernel_cases(ctx.thorough)
+    for c, bad in zip(bk, bigkernel(bk)):
+        for cause, msg in bad:
+            viols.append({"cause": cause, "msg": msg, "case": {"bigkernel": c}})
     oc = ["nice", "ionice", "affinity", "rlimit"]
     for c, bad in zip(oc, ctx.pmap(sim_oneshot, oc)):
         for cause, msg in bad:
             viols.append({"cause": cause, "msg": msg, "case": {"oneshot": c}})
-    cov = {"oneshot_sequences": len(oc), "evaluations": nlive + len(sc) + len(rc) + len(oc), "distinct_nontrivial": nlive + len(sc) + len(rc) - 4,
+    cov = {"oneshot_sequences": len(oc), "get_cases": len(gc_), "bigkernel_cases": len(bk),
+           "evaluations": nlive + len(sc) + len(rc) + len(oc) + len(gc_) + len(bk),
+           "distinct_nontrivial": nlive + len(sc) + len(rc) - 4 + len(gc_) + len(bk),
            "rule": "live: one evaluation = one set request on a sacrificial child on the real kernel, read back through psutil and the OS, "
                    "sibling compared; sim: one evaluation = one (Cpus_allowed_list shape, request) or (syscall, errno) pair; requests are "
                    "distinct by construction (4 repeated nice values excluded)",
@@ -375,6 +481,10 @@ def replay(ctx, case):
         bad = sim((c[0], c[1], c[2], tuple(c[3])))
     elif "oneshot" in case:
         bad = sim_oneshot(case["oneshot"])
+    elif "get" in case:
+        bad = sim_get(tuple(case["get"]))
+    elif "bigkernel" in case:
+        bad = bigkernel([case["bigkernel"]])[0]
     elif "refusal" in case:
         bad = sim_refusal(tuple(case["refusal"]))
     else:
